@@ -685,7 +685,8 @@ impl<'de, R: Read<'de>> Parser<R> {
     // Returns the keyword name if `name` is a keyword in postfix notation.
     fn postfix_keyword_name<'s>(&self, name: &'s str) -> Option<&'s str> {
         if self.options.keyword_syntax(KeywordSyntax::ColonPostfix) && name.len() > 1 {
-            name.strip_suffix(':')
+            // A lone dot is not a valid name
+            name.strip_suffix(':').filter(|keyword| *keyword != ".")
         } else {
             None
         }
